@@ -529,6 +529,9 @@ def _cm_generators(tree: ast.Module) -> Dict[str, ast.FunctionDef]:
     for n in ast.walk(tree):
         if isinstance(n, ast.FunctionDef) and any(ast.unparse(d).split(".")[-1] == "contextmanager" for d in n.decorator_list):
             body = [s for s in n.body if not (isinstance(s, ast.Expr) and isinstance(s.value, ast.Constant))]
+            if len(body) == 1 and isinstance(body[0], ast.With) and len(body[0].items) == 1 and body[0].items[0].optional_vars is None and not any(isinstance(x, (ast.Yield, ast.YieldFrom)) for x in ast.walk(body[0].items[0].context_expr)):
+                # with OTHER: PRE; yield; POST  -  the generator's own frame is another resource manager
+                body = list(body[0].body)
             ys = [i for i, s in enumerate(body) if isinstance(s, ast.Expr) and isinstance(s.value, ast.Yield) and s.value.value is None]
             n_y = sum(1 for x in ast.walk(n) if isinstance(x, (ast.Yield, ast.YieldFrom)))
             if len(ys) != 1 or n_y != 1:
@@ -599,6 +602,10 @@ class _InlineCM(ast.NodeTransformer):
             if isinstance(x, ast.Name) and isinstance(x.ctx, (ast.Store, ast.Del)) and x.id in bind:
                 return None
         body = [s for s in g.body if not (isinstance(s, ast.Expr) and isinstance(s.value, ast.Constant))]
+        outer_with = None
+        if len(body) == 1 and isinstance(body[0], ast.With):
+            outer_with = body[0]
+            body = list(outer_with.body)
         yi = [i for i, s in enumerate(body) if isinstance(s, ast.Expr) and isinstance(s.value, ast.Yield)][0]
 
         class _S(ast.NodeTransformer):
@@ -622,6 +629,16 @@ class _InlineCM(ast.NodeTransformer):
                 out.append(c_)
             return out
 
+        if outer_with is not None:
+            # with self._cm(x): BODY  ->  with OTHER: PRE; BODY; POST  (OTHER is left for the next round of inlining)
+            shell = _S().visit(_copy.deepcopy(ast.With(items=outer_with.items, body=[ast.Pass()], type_comment=None)))
+            shell.body = inst(body[:yi]) + wbody + inst(body[yi + 1:])
+            ast.copy_location(shell, node)
+            for x in ast.walk(shell.items[0].context_expr):
+                if hasattr(x, "lineno"):
+                    x.lineno = node.lineno
+                    x.end_lineno = getattr(node, "end_lineno", node.lineno)
+            return pre_stmts + [shell] + ([tail_ret] if tail_ret is not None else [])
         return pre_stmts + inst(body[:yi]) + wbody + inst(body[yi + 1:]) + ([tail_ret] if tail_ret is not None else [])
 
     def generic_visit(self, node):
@@ -1485,6 +1502,59 @@ class _StarCopies(ast.NodeTransformer):
         return node
 
 
+def _inline_type_aliases(trees: Dict[str, ast.Module]) -> int:
+    """`k = type(x)` with k and x each bound once in the function (x may be a parameter that is never re-bound): every
+    read of k is written as type(x) and the assignment goes.  type() of an unchanged name is the same value wherever it
+    is evaluated."""
+    import copy as _copy
+
+    n = 0
+    for t in trees.values():
+        if not any(isinstance(x, ast.Call) and isinstance(x.func, ast.Name) and x.func.id == "type" and len(x.args) == 1 for x in ast.walk(t)):
+            continue
+        for fn in [x for x in ast.walk(t) if isinstance(x, (ast.FunctionDef, ast.AsyncFunctionDef))]:
+            own = []
+            stack = list(fn.body)
+            while stack:
+                x = stack.pop()
+                own.append(x)
+                for c in ast.iter_child_nodes(x):
+                    if isinstance(c, (ast.FunctionDef, ast.AsyncFunctionDef, ast.ClassDef, ast.Lambda)):
+                        continue
+                    stack.append(c)
+            nested_names = {y.id for x in ast.walk(fn) if x is not fn and isinstance(x, (ast.FunctionDef, ast.AsyncFunctionDef, ast.Lambda, ast.ClassDef)) for y in ast.walk(x) if isinstance(y, ast.Name)}
+            stores: Dict[str, int] = {}
+            for x in own:
+                if isinstance(x, ast.Name) and isinstance(x.ctx, (ast.Store, ast.Del)):
+                    stores[x.id] = stores.get(x.id, 0) + 1
+            params = {a.arg for a in fn.args.posonlyargs + fn.args.args + fn.args.kwonlyargs}
+            for i, st in enumerate(list(fn.body)):
+                if not (isinstance(st, ast.Assign) and len(st.targets) == 1 and isinstance(st.targets[0], ast.Name)):
+                    continue
+                v = st.value
+                if not (isinstance(v, ast.Call) and isinstance(v.func, ast.Name) and v.func.id == "type" and len(v.args) == 1 and not v.keywords and isinstance(v.args[0], ast.Name)):
+                    continue
+                k, x_ = st.targets[0].id, v.args[0].id
+                if stores.get(k) != 1 or k in nested_names or k in params or "type" in stores or "type" in params:
+                    continue
+                if not ((stores.get(x_, 0) == 1 and x_ not in params) or (stores.get(x_, 0) == 0 and x_ in params)):
+                    continue
+
+                class _R(ast.NodeTransformer):
+                    def visit_Name(self, node):
+                        if node.id == k and isinstance(node.ctx, ast.Load):
+                            return ast.copy_location(_copy.deepcopy(v), node)
+                        return node
+
+                fn.body.remove(st)
+                for j, other in enumerate(fn.body):
+                    fn.body[j] = _R().visit(other)
+                n += 1
+        if n:
+            ast.fix_missing_locations(t)
+    return n
+
+
 def canonicalise(trees: Dict[str, ast.Module]) -> Dict[str, str]:
     """rename renamed private anchors back (in the trees); returns {canonical name: name used in this tree}"""
     for t in trees.values():
@@ -1511,6 +1581,7 @@ def canonicalise(trees: Dict[str, ast.Module]) -> Dict[str, str]:
             for fn in [x for x in ast.walk(t) if isinstance(x, (ast.FunctionDef, ast.AsyncFunctionDef))]:
                 _HoistWalrus().generic_visit(fn)
             ast.fix_missing_locations(t)
+    _inline_type_aliases(trees)
     _fold_module_tables(trees)
     _records_to_tuples(trees)
     for t in trees.values():
